@@ -64,6 +64,57 @@ Proof.
   revert r. induction n as [|n IH]; intros r; cbn [calls length]; [lia|].
   destruct (fst (cm pop r)); [specialize (IH (snd (cm pop r))); lia|cbn; lia].
 Qed.
+
+(* the stepping function IS that chain of calls: on success the new population is exactly the children the
+   n calls returned, in call order, and the generator is left where the last call left it; on failure the
+   error is the one the LAST call made returned (so it is a child maker's error, and nothing ran after it) *)
+Lemma last_cons_default {X} (a d : X) l : last (a :: l) d = last l a.
+Proof.
+  revert a d. induction l as [|y l IH]; intros a d; [reflexivity|].
+  change (last (a :: y :: l) d) with (last (y :: l) d). rewrite (IH y d), (IH y a). reflexivity.
+Qed.
+
+Lemma repeat_calls n pop r :
+  match repeat_ n cm pop r with
+  | (inl cs, r') => length (calls n pop r) = n /\ map (fun c => fst (snd c)) (calls n pop r) = map inl cs /\
+                    r' = last (map (fun c => snd (snd c)) (calls n pop r)) r
+  | (inr e, r') => exists k r_k, nth_error (calls n pop r) k = Some (r_k, (inr e, r')) /\ length (calls n pop r) = S k
+  end.
+Proof.
+  revert r. induction n as [|n IH]; intros r; cbn [repeat_ calls]; [auto|].
+  destruct (cm pop r) as [[c|e] r1] eqn:Hc; cbn [fst snd].
+  - specialize (IH r1). destruct (repeat_ n cm pop r1) as [[cs|e] r2].
+    + destruct IH as (Hl & Hm & Hr). cbn [length map fst snd]. repeat split; [lia|now rewrite Hm|].
+      rewrite Hr. symmetry. apply last_cons_default.
+    + destruct IH as (k & r_k & Hn & Hl). exists (S k), r_k. cbn [nth_error length]. split; [exact Hn|lia].
+  - exists 0, r. split; reflexivity.
+Qed.
+
+Theorem serial_children_are_the_calls pop r children pop' r' :
+  serial_next pop r = (inl children, pop', r') ->
+  length (calls (length pop) pop r) = length pop /\
+  map (fun c => fst (snd c)) (calls (length pop) pop r) = map inl pop'.
+Proof.
+  unfold serial_next. pose proof (repeat_calls (length pop) pop r) as H.
+  destruct (repeat_ (length pop) cm pop r) as [[cs|e] r1]; intros Heq; inversion Heq; subst. tauto.
+Qed.
+
+Theorem serial_error_is_a_childs pop r e pop' r' :
+  serial_next pop r = (inr e, pop', r') ->
+  exists k r_k, nth_error (calls (length pop) pop r) k = Some (r_k, (inr e, r')) /\
+                length (calls (length pop) pop r) = S k /\ k < length pop.
+Proof.
+  unfold serial_next. pose proof (repeat_calls (length pop) pop r) as H.
+  destruct (repeat_ (length pop) cm pop r) as [[cs|e0] r1]; intros Heq; [discriminate|].
+  injection Heq as -> <- ->.
+  destruct H as (k & r_k & Hn & Hl). exists k, r_k. repeat split; [exact Hn|exact Hl|].
+  pose proof (calls_at_most (length pop) pop r). lia.
+Qed.
+
+(* an empty population steps to an empty population without consulting the child maker or the generator *)
+Theorem serial_empty r : serial_next [] r = (inl [], [], r).
+Proof. reflexivity. Qed.
+
 End Gen.
 
 (* par_next: every child is made from the old population with its OWN independent generator
